@@ -11,8 +11,24 @@ TECH = 'dynamic symbolic execution of the real spowtd functions (symx over z3): 
 CHECKS = {
     'C01': dict(
         text='Bounded symbolic model checking of the real classify.match_storms call tree: every feasible control-flow path for records of up to N samples (N=7 quick, 9 thorough) with real-valued rain, level and thresholds is executed; any exception on any path, a repeated storm or rise, or a pair without a common time step is a violation with a concrete model replayed on the real code.',
-        note='R-mode (reals, not doubles); numpy replaced by vf.nplite; records longer than N samples and the SQL layer are outside this harness; set.pop() order is universally explored.',
+        note='R-mode (reals, not doubles); numpy replaced by vf.nplite; records longer than N samples are outside; set.pop() order is universally explored.',
         ref='5/C01'),
+    'C02': dict(
+        text='Three symbolic harnesses on the real code: (A) find_stable_matching on every candidate relation up to 3x3 (quick: 2x2, 3x2, 2x3) with symbolic integer preferences incl. ties, every consistent candidate-list order and every set.pop order -- obligations: one-to-one, no blocking pair, and (under no ties) weakly better for every storm than every other stable matching (all alternative matchings enumerated, each an SMT implication); (B) disambiguate_matching hands over the documented preference structure; (C) match_storms on symbolic data with blocking pairs recomputed from the run structure.',
+        note='Preferences in A are arbitrary integers; B ties them to duration / start agreement on a start grid of 4 with symbolic stops; C is bounded by N samples (7 quick, 8 thorough).',
+        ref='5/C02'),
+    'C03': dict(
+        text='Same exploration as C01 with the maximal-run oracle: for every returned storm/rise each member step is proved above its threshold and both neighbours at or below it (SMT obligations over the symbolic data on every path), N<=7 quick / 9 thorough.',
+        note='R-mode reading of the two strict comparisons; function level (match_storms); the SQL view storm_total_rain_depth is covered only when the DB-level harness is present.',
+        ref='5/C03'),
+    'C04': dict(
+        text='All pairs of boolean flag vectors up to length N (7 quick, 9 thorough) through the real get_mystery_jump_mask and get_true_interval_masks; the resulting unexplained-rise and interstorm flags are proved equal to a declarative expansion of the property text, and the runs equal to the maximal True runs.',
+        note='Function level: flag vectors are arbitrary booleans; rate computation and table writes of classify_interstorms belong to the DB-level harness.',
+        ref='5/C04'),
+    'C12': dict(
+        text='regrid and build_head_mapping executed on symbolic series (2..3 samples quick, 4 thorough; |y|/step <= 2; x any strictly increasing reals; several concrete steps) with interp1d/brentq replaced by their contracts; every yielded item is proved to be the next expected level of its pair, between the two samples and on the chord; nothing missing, nothing extra.',
+        note='R-mode; brentq contract = root strictly between the end points when signs differ; the nonlinear chord equation is kept as a lazy fact used only by obligations; numerical accuracy of scipy is outside (witness replays compare with the exact crossing to 1e-6).',
+        ref='5/C12'),
 }
 
 NOT_YET = 'check not built yet in this session (work in progress; see DESIGN.md section 8)'
